@@ -13,6 +13,7 @@ these instantly where the `div` operator and bit-blasted 128-bit dividers time o
 A `sat` answer of the translated query is turned back into values for the original variables and re-validated against the
 original constraints before it is used.
 """
+import os
 import z3
 
 
@@ -312,10 +313,12 @@ def solve(constraints, timeout_ms=10000, goal=(), small_first=False, quick=False
         attempts.append((sliced, itf_s, False))
     why = ''
     for cs, itf_k, is_full in attempts:
-        s = z3.Solver()
-        s.set('timeout', int(timeout_ms if quick else timeout_ms // (len(attempts) + 1)))
-        s.add(cs)
-        r = s.check()
+        if os.environ.get('VERIF_DUMP_INT'):
+            _s = z3.Solver()
+            _s.add(cs)
+            with open(os.path.join(os.environ['VERIF_DUMP_INT'], 'q_%d_%s.smt2' % (len(cs), 'full' if is_full else 'sliced')), 'w') as _f:
+                _f.write('(set-logic ALL)\n' + _s.to_smt2())
+        s, r = _check_with_restarts(cs, int(timeout_ms if quick else timeout_ms // (len(attempts) + 1)))
         if r == z3.unsat:
             return 'unsat', None, itf_k
         if r == z3.sat and is_full:
@@ -359,6 +362,27 @@ def solve(constraints, timeout_ms=10000, goal=(), small_first=False, quick=False
     if candidate is not None:
         return 'candidate', candidate, itf
     return 'unknown', why, itf
+
+
+def _check_with_restarts(cs, budget_ms):
+    """non-linear integer queries are decided in a second or not at all, depending on the search order z3 happens to take:
+    short runs under different seeds first, the remaining budget for a last long one (any definite answer is final)"""
+    import time
+    t_end = time.time() + budget_ms / 1000.0
+    slices = [budget_ms // 8, budget_ms // 8, budget_ms // 4]
+    s, r = None, z3.unknown
+    for k, ms in enumerate(slices + [None]):
+        left = int((t_end - time.time()) * 1000)
+        if left <= 200 and s is not None:
+            break
+        s = z3.Solver()
+        s.set('timeout', max(200, min(ms, left) if ms is not None else left))
+        s.set('random_seed', k)
+        s.add(cs)
+        r = s.check()
+        if r != z3.unknown:
+            break
+    return s, r
 
 
 def _cvc5_unsat(solver, budget_s):
